@@ -113,3 +113,24 @@ pub fn vp_str_list_contains<const N: usize>(list: &[&str; N], s: &str) -> (r: bo
 pub fn vp_vec_iter<'b, T>(v: &'b Vec<T>) -> (r: VpIter<&'b T>)
     ensures r.rest().len() == v@.len(), forall|k: int| 0 <= k < v@.len() ==> *(#[trigger] r.rest()[k]) == v@[k],
 { unimplemented!() }
+impl<T> VpIter<T> {
+    #[verifier::external_body]
+    pub fn skip(self, n: usize) -> (r: VpIter<T>)
+        ensures r.rest() == (if n <= self.rest().len() { self.rest().subrange(n as int, self.rest().len() as int) } else { Seq::empty() }) { unimplemented!() }
+    /// `map(f)`: element-wise; each result is a possible result of `f` on the corresponding element
+    #[verifier::external_body]
+    pub fn map<U, F: FnMut(T) -> U>(self, f: F) -> (r: VpIter<U>)
+        requires forall|x: T| f.requires((x,)),
+        ensures r.rest().len() == self.rest().len(), forall|k: int| 0 <= k < r.rest().len() ==> f.ensures((self.rest()[k],), #[trigger] r.rest()[k]),
+    { unimplemented!() }
+}
+impl VpIter<usize> {
+    #[verifier::external_body]
+    pub fn min(self) -> (r: Option<usize>)
+        ensures
+            self.rest().len() == 0 ==> r is None,
+            self.rest().len() > 0 ==> (r matches Some(m) && self.rest().contains(m) && forall|k: int| 0 <= k < self.rest().len() ==> m <= #[trigger] self.rest()[k]),
+    { unimplemented!() }
+    #[verifier::external_body]
+    pub fn sum(self) -> (r: usize) { unimplemented!() }
+}
